@@ -67,6 +67,8 @@ type Case struct {
 	// BadChunk (chunked): the chunk framing breaks after the first chunk - 1: size line "1g0", 2: missing CRLF after the
 	// chunk data ("abc0"). The handler that reads gets an error; the connection must not go on serving what follows.
 	BadChunk int `json:"bad_chunk,omitempty"`
+	// Method: the method of the upload request ("" = POST); a GET or HEAD with a body is framed like any other request
+	Method string `json:"method,omitempty"`
 }
 
 // expander doubles every byte of r.
@@ -118,7 +120,11 @@ func (w *limitedWriter) Write(p []byte) (int, error) {
 func build(cs Case) (stream []byte, body []byte, firstLen int) {
 	body = wire.Body(cs.Len)
 	var w bytes.Buffer
-	w.WriteString("POST /upload HTTP/1.1\r\nHost: h\r\nX-Id: up\r\n")
+	method := cs.Method
+	if method == "" {
+		method = "POST"
+	}
+	w.WriteString(method + " /upload HTTP/1.1\r\nHost: h\r\nX-Id: up\r\n")
 	if cs.Expect {
 		w.WriteString("Expect: 100-continue\r\n")
 	}
@@ -357,6 +363,9 @@ func (w *worker) exec(c *mc.Ctx, cs Case) {
 		if cs.MaxBody < 0 {
 			limit = "none"
 		}
+		if cs.Method != "" {
+			enc += "|" + cs.Method
+		}
 		c.Violate(fmt.Sprintf("%s|%s|limit=%s|stop=%s", kind, enc, limit, stopClass(cs)), msg, cs)
 	}
 	if res.Panic != nil {
@@ -588,6 +597,9 @@ func cases(thorough bool) []Case {
 								}
 								if mb == 0 && rs == 4096 {
 									cs.Expect = true
+									out = append(out, cs)
+									cs.Expect = false
+									cs.Method = "GET"
 									out = append(out, cs)
 								}
 							}
